@@ -1,7 +1,7 @@
 """Self-tests of the reference models on hand-computed cases (run by setup_cmd)."""
 import importlib
 
-MODULES = []
+MODULES = ["lev", "mec"]
 
 
 def run():
